@@ -9,8 +9,11 @@ table of per-session slots; a round step of session `i` reads slots of session
 `i`, writes the slots that round produces, and touches nothing else.  Whether
 the real code behaves like this (no value it returned is changed by a later
 call, for whichever session) is what the `hist` correspondence decides: the
-driver runs `Proc.run` below on the schedule the harness executed on the real
-code and both print the whole process state after every step.
+driver runs `Proc.runD` below on the schedule the harness executed on the real
+code and both print the status of every step and the whole process state after
+it.  Histories contain FAILING steps (section "failing steps": the random
+source of a round fails, a message arrives mutated, the message of another
+session is fed to the round): a step that does not succeed changes nothing.
 
 The model is generic in the value types and round functions (`Rounds`): the
 theorems instantiate it with the sha2pc rounds (`SessCfg.rounds`), the driver
@@ -46,6 +49,18 @@ structure Rounds (T : Ty) where
   t2 : T.M2 → Res T.M2
   te : T.ES → Res T.ES
   t3 : T.M3 → Res T.M3
+  /-- `GarblerRound1` with a random source that FAILS at byte offset `off`
+  (`kind`: how the failing read reports, see `Dist.rng`) -/
+  x1 : (off kind : Nat) → Res (T.M1 × T.GS)
+  /-- `EvaluatorRound2` with a failing random source -/
+  x2 : (off kind : Nat) → T.M1 → Res (T.M2 × T.ES)
+  /-- `GarblerRound3` with a failing random source -/
+  x3 : (off kind : Nat) → T.GS → T.M2 → Res T.M3
+  /-- the three messages through bytes that were MUTATED in transit
+  (`Decode* (mutate mu (Encode* v))`) -/
+  u1 : (mu : Nat) → T.M1 → Res T.M1
+  u2 : (mu : Nat) → T.M2 → Res T.M2
+  u3 : (mu : Nat) → T.M3 → Res T.M3
 
 /-- What the process holds for one session: every value a round returned so far. -/
 structure Sess (T : Ty) where
@@ -129,6 +144,170 @@ def Proc.run {T : Ty} (cfg : Cfg T) (st : Proc T) (sched : List (Nat × Act)) : 
 def proj (j : Nat) (sched : List (Nat × Act)) : List Act :=
   (sched.filter fun e => e.1 == j).map (·.2)
 
+/-! ### failing steps
+
+The property says: malformed input and messages of another session are
+rejected with an error, and EVERY session is correct.  In a process that serves
+several sessions a step can fail for reasons outside the session -- the random
+source of the process errors in the middle of a round, a message arrives
+mutated, the message of another session is fed to the round -- and the other
+sessions, and the failed session itself on a retry, must not notice.  An event
+of a history therefore carries an optional DISTURBANCE.  `Proc.stepD`: a step
+that does not succeed leaves the WHOLE process state as it was. -/
+
+/-- What is wrong with the environment of one step. -/
+inductive Dist where
+  /-- The random source given to the round fails at byte offset `off` of what
+  the round draws.  `kind` 0: the read that reaches the offset returns no bytes
+  and the error; 1: it returns the bytes before the offset together with the
+  error; 2: it returns those bytes WITHOUT an error (short read) and the next
+  read fails. -/
+  | rng (off kind : Nat)
+  /-- The MESSAGE the round receives is the one session `src` holds in that
+  slot (rounds 3 and 4). -/
+  | foreignMsg (src : Nat)
+  /-- Round 4 run on the evaluator STATE session `src` holds, with the own
+  round-3 message. -/
+  | foreignState (src : Nat)
+  /-- The message arrives as bytes mutated in transit (`mutate mu`). -/
+  | malformed (mu : Nat)
+  deriving Repr, DecidableEq
+
+/-- One event of a history with failures: session `sess` runs step `act` in an
+environment disturbed by `dist` (`none`: nothing is wrong). -/
+structure Ev where
+  sess : Nat
+  act : Act
+  dist : Option Dist := none
+  deriving Repr, DecidableEq
+
+/-- The outcome of one (possibly disturbed) step of session `s` in the process
+`st`: `none` when an input of the round is not there (or the disturbance does
+not apply to this round: round 4 draws no randomness, round 1 and 2 have no
+session to be foreign to), otherwise the outcome of the round with the new
+slots of the session. -/
+def Sess.stepResD {T : Ty} (R : Rounds T) (st : Nat → Sess T) (s : Sess T) (a : Act) :
+    Option Dist → Option (Res (Sess T))
+  | none => s.stepRes R a
+  | some (.rng off kind) =>
+    match a with
+    | .g1 => some (do
+        let r ← R.x1 off kind
+        pure { s with m1 := some r.1, gs := some r.2 })
+    | .e2 x =>
+      match s.m1 with
+      | none => none
+      | some m1 => some (do
+          let m ← thru R.t1 x m1
+          let r ← R.x2 off kind m
+          pure { s with m2 := some r.1, es := some r.2 })
+    | .g3 x y =>
+      match s.gs, s.m2 with
+      | some gs, some m2 => some (do
+          let g ← thru R.tg x gs
+          let m ← thru R.t2 y m2
+          let m3 ← R.x3 off kind g m
+          pure { s with m3 := some m3 })
+      | _, _ => none
+    | .e4 _ _ => none
+  | some (.foreignMsg src) =>
+    match a with
+    | .g3 x y =>
+      match s.gs, (st src).m2 with
+      | some gs, some m2 => some (do
+          let g ← thru R.tg x gs
+          let m ← thru R.t2 y m2
+          let m3 ← R.r3 g m
+          pure { s with m3 := some m3 })
+      | _, _ => none
+    | .e4 x y =>
+      match s.es, (st src).m3 with
+      | some es, some m3 => some (do
+          let e ← thru R.te x es
+          let m ← thru R.t3 y m3
+          let d ← R.r4 e m
+          pure { s with out := some d })
+      | _, _ => none
+    | _ => none
+  | some (.foreignState src) =>
+    match a with
+    | .e4 x y =>
+      match (st src).es, s.m3 with
+      | some es, some m3 => some (do
+          let e ← thru R.te x es
+          let m ← thru R.t3 y m3
+          let d ← R.r4 e m
+          pure { s with out := some d })
+      | _, _ => none
+    | _ => none
+  | some (.malformed mu) =>
+    match a with
+    | .g1 => none
+    | .e2 _ =>
+      match s.m1 with
+      | none => none
+      | some m1 => some (do
+          let m ← R.u1 mu m1
+          let r ← R.r2 m
+          pure { s with m2 := some r.1, es := some r.2 })
+    | .g3 x _ =>
+      match s.gs, s.m2 with
+      | some gs, some m2 => some (do
+          let g ← thru R.tg x gs
+          let m ← R.u2 mu m2
+          let m3 ← R.r3 g m
+          pure { s with m3 := some m3 })
+      | _, _ => none
+    | .e4 x _ =>
+      match s.es, s.m3 with
+      | some es, some m3 => some (do
+          let e ← thru R.te x es
+          let m ← R.u3 mu m3
+          let d ← R.r4 e m
+          pure { s with out := some d })
+      | _, _ => none
+
+def Proc.stepResD {T : Ty} (cfg : Cfg T) (st : Proc T) (e : Ev) : Option (Res (Sess T)) :=
+  (st e.sess).stepResD (cfg e.sess) st e.act e.dist
+
+/-- One event of a history with failures: a step that succeeds replaces the
+slots of ITS session, a step that does not succeed (error, crash, input
+missing) leaves the whole process state unchanged. -/
+def Proc.stepD {T : Ty} (cfg : Cfg T) (st : Proc T) (e : Ev) : Proc T :=
+  match Proc.stepResD cfg st e with
+  | some (.ok s') => fun j => if j = e.sess then s' else st j
+  | _ => st
+
+def Proc.runD {T : Ty} (cfg : Cfg T) (st : Proc T) (sched : List Ev) : Proc T :=
+  sched.foldl (Proc.stepD cfg) st
+
+/-- did the step succeed? -/
+def Proc.okAt {T : Ty} (cfg : Cfg T) (st : Proc T) (e : Ev) : Bool :=
+  match Proc.stepResD cfg st e with
+  | some (.ok _) => true
+  | _ => false
+
+/-- The events of a history that succeeded when they ran. -/
+def Proc.effective {T : Ty} (cfg : Cfg T) : Proc T → List Ev → List Ev
+  | _, [] => []
+  | st, e :: es =>
+    if Proc.okAt cfg st e then e :: Proc.effective cfg (Proc.stepD cfg st e) es
+    else Proc.effective cfg st es
+
+/-- Every DISTURBED event of the history fails at the point where it runs. -/
+def Proc.DistFail {T : Ty} (cfg : Cfg T) : Proc T → List Ev → Prop
+  | _, [] => True
+  | st, e :: es => (e.dist.isSome = true → Proc.okAt cfg st e = false) ∧ Proc.DistFail cfg (Proc.stepD cfg st e) es
+
+/-- The undisturbed events of a history, as events of the failure-free model. -/
+def cleanSched (sched : List Ev) : List (Nat × Act) :=
+  (sched.filter fun e => e.dist.isNone).map fun e => (e.sess, e.act)
+
+/-- What happens to an encoding in transit: truncation to fewer bytes (even
+`mu`) or one extra byte (odd `mu`).  The length always changes. -/
+def mutate (mu : Nat) (bs : Bytes) : Bytes :=
+  if mu % 2 = 0 then bs.take ((mu / 2) % bs.length) else bs ++ [UInt8.ofNat (mu / 2)]
+
 /-! ### the sha2pc instance -/
 
 abbrev sha2pcTy : Ty :=
@@ -159,5 +338,15 @@ def SessCfg.rounds (c : SessCfg) : Rounds sha2pcTy where
   t2 := fun m => encodeRound2 c.P.curve m >>= decodeRound2 c.P.curve
   te := fun s => encodeEvaluatorSession c.P.curve s >>= decodeEvaluatorSession c.P.curve
   t3 := fun m => encodeRound3 (countsOf c.P.circ) m >>= decodeRound3 (countsOf c.P.circ)
+  -- Every read of the random source is followed by `if err != nil { return ..., err }` in GarblerRound1 /
+  -- GenerateCOSenderSetup, EvaluatorRound2 / BuildCOChoices, GarblerRound3 / Circuit.Garble / ot.NewLabel /
+  -- makeLabels: the values the pure round functions take as arguments are not all there, the round returns
+  -- the error.  (Tied by the `hist` correspondence at every sampled offset of every round.)
+  x1 := fun _ _ => .error
+  x2 := fun _ _ _ => .error
+  x3 := fun _ _ _ _ => .error
+  u1 := fun mu m => encodeRound1 c.P.curve m >>= fun bs => decodeRound1 c.P.curve (mutate mu bs)
+  u2 := fun mu m => encodeRound2 c.P.curve m >>= fun bs => decodeRound2 c.P.curve (mutate mu bs)
+  u3 := fun mu m => encodeRound3 (countsOf c.P.circ) m >>= fun bs => decodeRound3 (countsOf c.P.circ) (mutate mu bs)
 
 end Mpc.Sha2pc
